@@ -28,6 +28,8 @@ CLAIMS = {
               "strings over all Unicode scalar values (0..2 code points, 3 in thorough) in five positions through the real printer, "
               "lexer and schema builder; all 512 combinations of 9 optional schema parts; a programmatic schema with 20 adversarial "
               "strings x 6 reasons x 4 default-value shapes (Python values incl. explicit None and the Int minimum). Assertions: "
+              "Default value text: every string of 0..3 symbols of a 15-symbol alphabet as ID / String default of an argument or input "
+              "field, compared through the argument values a resolver receives from the original and the rebuilt schema. "
               "the rebuilt schema is valid, prints identically, shows no differences either way and keeps the order.",
               "DESIGN.md section 7, C17"),
     "C12": _c("Bounded symbolic model checking of the real validate(): 18 documents (valid, near-valid, ill-typed) x every pair of the "
@@ -42,11 +44,12 @@ CLAIMS = {
               "coercion accept, execution over conforming data (incl. the Int extremes) must report no errors and produce the "
               "shape the specification oracle predicts; the one run-time case the specification allows is recognised and exempted. "
               "Plus allowed_variable_usage vs IsVariableUsageAllowed on all wrapper pairs, and attributability of errors with "
+              "OneOf: 7 variable types x 5 defaults x 16 uses in and around OneOf literals x 9 runtime values. "
               "corrupted data.", "DESIGN.md section 7, C13"),
     "C06": _c("Bounded symbolic model checking of the real incremental executor / publisher / work queue / stream item queue on a "
               "deterministic event loop with the stop point as a solver variable: no stop, aclose() of the payload stream after "
               "0..3 payloads, abort signal (three kinds of reason) before the 0..5th settlement, source iterator raising at item "
-              "0..2, resolver errors; over 6 templates (12 in thorough), 4 list-source kinds, early execution on/off, symbolic "
+              "0..2, resolver errors; over 8 templates (17 in thorough) plus 4 serially executed mutation templates with their own obligation, 4 list-source kinds, early execution on/off, symbolic "
               "directive flags, sync/awaitable positions and completion order. Assertions: the caller is released, the loop is "
               "quiescent, every started source is closed exactly once, the work-finished hook fires exactly once after all "
               "resolver coroutines settled. Eleven genuine defect classes found this way are recorded in known_findings.json "
@@ -57,6 +60,8 @@ CLAIMS = {
               "execution groups, fragments deferred and plain, errors) whose directive `if` values, sync/awaitable resolver "
               "positions, consumer timing and completion order (scheduler decisions) are symbolic. The payloads are applied to the "
               "initial result exactly as the delivery format prescribes and compared with the same operation executed with the "
+              "(16 templates since round 3, incl. per-list-item defers below an outer defer.) Unit obligation: build_execution_plan vs "
+              "the specification's BuildExecutionPlan on all forests of 3 identity-compared defer usages x 12 occurrence patterns per key x 6 parent sets. "
               "directives disabled (error-free: equality; otherwise refinement of the non-propagating reference).",
               "DESIGN.md section 7, C04"),
     "C05": _c("Same executions as C04, judged by a delivery-protocol validator: every id announced once before use and never "
@@ -103,6 +108,7 @@ CLAIMS = {
               "value and literal shapes with symbolic leaves (unbounded ints, floats, short strings, bools, null, Undefined, "
               "variables present/absent/null): 'coercion fails iff validation reports', 'results conform to the type', 'value -> "
               "literal -> coerce is the identity', 'the literal rule accepts exactly the coercible constants', 'a provided or "
+              "defaulted variable is never silently dropped'; numeric literals with exponents 0..399 / up to 400 digits stay finite. "
               "defaulted variable is never silently dropped'. The numeric leaves are decided for all doubles / 72-bit ints by E2.",
               "DESIGN.md section 7, C15"), engine="crosshair-z3 + ast2smt-z3"),
     "C16": dict(_c("Two engines. E2: the numeric kernels of graphql.type.scalars (serialize/coerce Int and Float, int_value_to_literal, "
@@ -125,7 +131,8 @@ CLAIMS = {
     "C01": _c("Bounded symbolic model checking of the real lexer, schema-coordinate lexer, the five parsing entry points and "
               "graphql_sync: symbolic source text (all code points incl. lone surrogates) up to the stated lengths, escape/number/"
               "block-string templates with arbitrary tails, truncation at every point, single-character substitution by any code "
-              "point, nesting depth 0..100, arbitrary variable values / operation names, and raising resolvers; the assertion is "
+              "point, nesting depth 0..100, arbitrary variable values / operation names, 42 exotic Python values per declared variable with the real message rendering, "
+              "15 exception classes with unusual special methods, and raising resolvers; the assertion is "
               "'only GraphQLSyntaxError escapes parsing; graphql_sync returns a well-formed ExecutionResult'.", "DESIGN.md section 7, C01"),
     "C09": _c("Bounded symbolic model checking of the real Lexer / parser / strip_ignored_characters against a reference tokenizer "
               "written from the lexical grammar: every scalar-value string up to the stated length for one lexer step and for the "
